@@ -84,6 +84,9 @@ def generatorGlobalsWritten : List String := []
 /-- the options of the generator: (name, kind) of every `flags.<Kind>Var(&target, "name", …)` call in the non-test Go files of cmd/protoc-gen-fastmarshal (kind `value`: a flag.Value implementation) -/
 def generatorOptions : List (String × String) := [("apiversion", "value"), ("dest", "string"), ("debug", "bool"), ("filepermessage", "bool"), ("specialname", "value"), ("enableunsafedecode", "bool")]
 
+/-- how the value options of the generator (`flags.Var(&x.field, "name", …)`, a flag.Value whose Set runs once per `name=value` token) keep what they are given: (option, Go type of the target field, the underlying type in that type's declaration) -/
+def generatorValueOptionStores : List (String × String × String) := [("apiversion", "protoAPIVersion", "string"), ("specialname", "specialNames", "map[string]struct{}")]
+
 /-- mentions of `Reserved` (descriptor accessors ReservedRanges / ReservedNames) in the non-test Go files of the generator and of `reserved` in its three templates -/
 def reservedMentions : Nat := 0
 
